@@ -331,7 +331,7 @@ def run_check(prop, tier, seed):
     cov = dict(
         obligations=ps["obligations"], discharged=ps["discharged"],
         checker_cmd="cd coq && coq_makefile -f _CoqProject -o Makefile && make -j16  (coqc 8.16.1; Properties/%s.vo and all it depends on)" % prop.id,
-        trusted_base=vlib.TRUSTED_BASE, theorems=ps["theorems"], assumptions=ps["assumptions"],
+        trusted_base=vlib.TRUSTED_BASE + [vlib.stdlib_axioms(ps["assumptions"])], theorems=ps["theorems"], assumptions=ps["assumptions"],
         evaluations=n_eval, distinct_nontrivial=len(distinct), rule=prop.rule, samples=samples,
         traces_validated_against_impl=n_eval - dropped, model_dropped=dropped,
         disagreements=len(disagreements), oracle_violations=len(oracle_viol),
